@@ -610,6 +610,7 @@ theorem finv_assignFloat (cfg : FCfg) (x : Val) (s : FSt) (h : FInv cfg s) : FIn
 /-- what is recorded for one operation of the model (mirrors what the harness records from the code) -/
 def frecOf (cfg : FCfg) (s : FSt) (op : FOp) : FRec :=
   { write := match op with | .writeFloat x _ => some x | _ => none,
+    assign := match op with | .driverAssignFloat x => some x | _ => none,
     ok := (fstep1 cfg s op).ok,
     selected := match op with | .writeFloat x _ => closest cfg.vdict x | _ => none,
     idx := (fstep1 cfg s op).idx, value := (fstep1 cfg s op).value }
@@ -640,6 +641,33 @@ theorem finv_step (cfg : FCfg) (s : FSt) (op : FOp) (h : FInv cfg s) :
     · exact h'
   | driverAssignFloat x => exact finv_assignFloat cfg x _ h'
 
+theorem announceIdx_idx (cfg : FCfg) (j : Int) (s : FSt) : (announceIdx cfg j s).idx = j := by
+  unfold announceIdx
+  split <;> simp [femit]
+
+/-- a driver-side assignment of `x` leaves an index whose value no other label is closer to `x`: the current one when
+`x` is exactly its value, the one `min(…)` selects in every other case — however close `x` is to the current value -/
+theorem assignFloat_selects (cfg : FCfg) (hn : (cfg.vdict.map Prod.fst).Nodup) (x : Val) (s : FSt) (h : FInv cfg s) :
+    SelectsClosest cfg.vdict x (assignFloat cfg x s).idx := by
+  unfold assignFloat
+  simp only
+  by_cases heq : (cfg.vdict.lookup s.idx == some x) = true
+  · simp only [heq, if_true, femit]
+    have hl : cfg.vdict.lookup s.idx = some x := by simpa using heq
+    exact ⟨x, hl, fun jw _ => by simp [dist]⟩
+  · have heq' : (cfg.vdict.lookup s.idx == some x) = false := by simpa using heq
+    simp only [heq', Bool.false_eq_true, if_false]
+    cases hc : closest cfg.vdict x with
+    | none =>
+      exfalso
+      unfold FInv ShowsIndexValue at h
+      cases hv : cfg.vdict with
+      | nil => rw [hv] at h; simp at h
+      | cons c cs => rw [hv] at hc; simp [closest] at hc
+    | some i =>
+      simp only [femit, announceIdx_idx]
+      exact closest_spec cfg.vdict x i hn hc
+
 theorem writeFloat_ok_selected (cfg : FCfg) (x : Val) (w : WRes Int) (s : FSt)
     (hok : (writeFloat cfg x w s).ok = true) : ∃ i, closest cfg.vdict x = some i := by
   unfold writeFloat at hok
@@ -659,13 +687,105 @@ def limitsOf (cfg : LCfg) (s : LSt) : Limits :=
 def echoes (cfg : LCfg) (x : Val) (w : WRes Val) : Bool :=
   !cfg.hasW || w == .retNone || w == .ret x
 
-/-- what is recorded for one operation of the model (mirrors what the harness records from the code) -/
+/-- what is recorded for one operation of the model (mirrors what the harness records from the code; `stopAt` is only
+looked at for accepted writes, which passed the validation) -/
 def lrecOf (cfg : LCfg) (s : LSt) (op : LOp) : LRec :=
-  { write := match op with | .write x _ => some x | _ => none,
-    echo := match op with | .write x w => echoes cfg x w | _ => false,
+  { write := match op with | .write x _ _ => some x | _ => none,
+    stopAt := match op with | .write x c _ => (runChecks (checkLimits cfg s x) c cfg.layers 0).stopAt | _ => none,
+    echo := match op with | .write x _ w => echoes cfg x w | _ => false,
     setLimits := match op with | .writeLimits a b => some (a, b) | _ => none,
     ok := (lstep1 cfg s op).ok, before := limitsOf cfg s, after := limitsOf cfg (lstep1 cfg s op),
     value := (lstep1 cfg s op).value }
+
+/-! the spec's declarative "defined first" against the model's scan of the class dicts -/
+
+theorem any_false_of_getD (sel : Layer → Bool) : ∀ (rest : List Layer),
+    (∀ b, b < rest.length → sel (rest.getD b default) = false) → rest.any sel = false := by
+  intro rest
+  induction rest with
+  | nil => intro _; rfl
+  | cons l t ih =>
+    intro h
+    simp only [List.any_cons, Bool.or_eq_false_iff]
+    refine ⟨by simpa using h 0 (by simp), ih (fun b hb => ?_)⟩
+    have := h (b + 1) (by simp; omega)
+    simpa using this
+
+theorem firstDeclares_zero (sel : Layer → Bool) (l : Layer) (rest : List Layer)
+    (h : FirstDeclares (l :: rest) sel 0) : (sel l && !rest.any sel) = true := by
+  obtain ⟨h1, h2⟩ := h
+  have h1' : sel l = true := by simpa using h1
+  have : rest.any sel = false := any_false_of_getD sel rest (fun b hb => by
+    have := h2 (b + 1) (by simp; omega) (by omega)
+    simpa using this)
+  simp [h1', this]
+
+theorem firstDeclares_succ (sel : Layer → Bool) (l : Layer) (rest : List Layer) (a : Nat)
+    (h : FirstDeclares (l :: rest) sel (a + 1)) : FirstDeclares rest sel a := by
+  obtain ⟨h1, h2⟩ := h
+  refine ⟨by simpa using h1, fun b hb hab => ?_⟩
+  have := h2 (b + 1) (by simp; omega) (by omega)
+  simpa using this
+
+theorem autoAt_zero (l : Layer) (rest : List Layer) (h : AutoAt (l :: rest) 0) :
+    l.ownCheck = false ∧ isFirstDef l rest = true := by
+  obtain ⟨h1, h2⟩ := h
+  refine ⟨by simpa using h1, ?_⟩
+  unfold isFirstDef
+  simp only [Bool.or_eq_true]
+  rcases h2 with h2 | h2 | h2
+  · exact Or.inl (Or.inl (firstDeclares_zero (·.declMin) l rest h2))
+  · exact Or.inl (Or.inr (firstDeclares_zero (·.declMax) l rest h2))
+  · exact Or.inr (firstDeclares_zero (·.declLimits) l rest h2)
+
+theorem autoAt_succ (l : Layer) (rest : List Layer) (a : Nat) (h : AutoAt (l :: rest) (a + 1)) : AutoAt rest a := by
+  obtain ⟨h1, h2⟩ := h
+  refine ⟨by simpa using h1, ?_⟩
+  rcases h2 with h2 | h2 | h2
+  · exact Or.inl (firstDeclares_succ _ l rest a h2)
+  · exact Or.inr (Or.inl (firstDeclares_succ _ l rest a h2))
+  · exact Or.inr (Or.inr (firstDeclares_succ _ l rest a h2))
+
+/-- the loop over the check methods: when it lets a value through although the automatic check sits at position `a`
+and no programmer's check before `a` ended the loop, `checkLimits` did not raise -/
+theorem runChecks_auto (lim : Bool) (c : List CRes) : ∀ (layers : List Layer) (i a : Nat),
+    (runChecks lim c layers i).ok = true → a < layers.length → AutoAt layers a →
+    (∀ j, (runChecks lim c layers i).stopAt = some j → i + a < j) → lim = true := by
+  intro layers
+  induction layers with
+  | nil => intro i a _ ha; simp at ha
+  | cons l rest ih =>
+    intro i a hok ha hauto hstop
+    cases a with
+    | zero =>
+      obtain ⟨hown, hfirst⟩ := autoAt_zero l rest hauto
+      simp only [runChecks, hown, Bool.false_eq_true, if_false, hfirst, if_true] at hok
+      cases lim with
+      | true => rfl
+      | false => simp at hok
+    | succ a' =>
+      have hauto' := autoAt_succ l rest a' hauto
+      have ha' : a' < rest.length := by simpa using ha
+      simp only [runChecks] at hok hstop
+      by_cases hown : l.ownCheck = true
+      · simp only [hown, if_true] at hok hstop
+        cases hc : c.getD i .pass with
+        | pass =>
+          simp only [hc] at hok hstop
+          exact ih (i + 1) a' hok ha' hauto' (fun j hj => by have := hstop j hj; omega)
+        | stop =>
+          simp only [hc] at hstop
+          have := hstop i rfl
+          omega
+        | fail k => rw [hc] at hok; exact absurd hok (by simp)
+      · simp only [hown, Bool.false_eq_true, if_false] at hok hstop
+        by_cases hf : isFirstDef l rest = true
+        · simp only [hf, if_true] at hok hstop
+          cases lim with
+          | true => rfl
+          | false => simp at hok
+        · simp only [hf, Bool.false_eq_true, if_false] at hok hstop
+          exact ih (i + 1) a' hok ha' hauto' (fun j hj => by have := hstop j hj; omega)
 
 theorem within_of_check (cfg : LCfg) (s : LSt) (x : Val) (h : checkLimits cfg s x = true) :
     Within (limitsOf cfg s) x := by
